@@ -8,7 +8,7 @@ os.chdir(HERE)
 args = sys.argv[1:]
 tier = args[args.index("--tier") + 1] if "--tier" in args else "quick"
 only = args[args.index("--only") + 1] if "--only" in args else None
-FIX_PROP = {"F1": "C05", "F2": "C06", "F3": "C16", "F4": "C19", "F5": "C20", "F6": "C20", "F7": "C17"}
+FIX_PROP = {"F1": "C05", "F2": "C06", "F3": "C16", "F4": "C19", "F5": "C20", "F6": "C20", "F7": "C17", "F8": "C20"}
 rows = []
 jobs = []
 for p in sorted(glob.glob("seeded/C*/m*/patch.diff")) + sorted(glob.glob("seeded/C*/r*/patch.diff")):
